@@ -116,10 +116,12 @@ int __wrap_pipe(int fd[2]) {
 }
 int __real_dup(int fd);
 int __wrap_dup(int fd) {
-    int r = __real_dup(fd);
-    if (t_alien) return r;
+    if (t_alien) return __real_dup(fd);
     int k = -1;
     for (int i = 0; i < MAXF; i++) if (FDR[i] == fd) k = i;
+    /* a duplicate of pool descriptor k gets a number above every pool descriptor of this script and ordered like k: the
+     * order in which a module's sources are destroyed (by descriptor number) is then the same in every run */
+    int r = k >= 0 && T ? fcntl(fd, F_DUPFD, 600 + 32 * T->index_ + 2 * k) : __real_dup(fd);
     if (r >= 0 && k >= 0 && ndups < 32) { dup_fd[ndups] = r; dup_of[ndups] = k; ndups++; }
     return r;
 }
@@ -518,8 +520,8 @@ static void run_script(const script_t *s) {
             continue;
         }
         if (__real_pipe(p) != 0) { FDR[k] = FDW[k] = -1; continue; }
-        /* the last pipe of the pool is read through descriptor number 0 (a daemon that closed stdin: the boundary value) */
-        FDR[k] = dup2(p[0], (k == 5 && T->index_ == 0) ? 0 : 200 + 32 * T->index_ + 2 * k); FDW[k] = dup2(p[1], 201 + 32 * T->index_ + 2 * k);
+        /* the first pipe of the pool is read through descriptor number 0 (a daemon that closed stdin: the boundary value) */
+        FDR[k] = dup2(p[0], (k == 0 && T->index_ == 0) ? 0 : 200 + 32 * T->index_ + 2 * k); FDW[k] = dup2(p[1], 201 + 32 * T->index_ + 2 * k);
         __real_close(p[0]); __real_close(p[1]);
         fcntl(FDR[k], F_SETFL, O_NONBLOCK); fcntl(FDW[k], F_SETFL, O_NONBLOCK);
     }
